@@ -24,6 +24,7 @@ def run(chk):
         T = g.normal(size=(C, D, t))
         sigma = np.asarray(ubm.variances) * g.uniform(0.5, 2.0, size=(C, D))
         m = iv.with_params(ubm, T, sigma, t)
+        m.update_sigma = bool(i % 2)     # a training switch: the i-vector is that of the machine's covariances either way
         stats = fa.gen_stats(r, ubm, r.choice([2, 3, 5]))
         zero_comp = (i % 6 == 0) and C >= 2
         zc = r.randrange(C)    # which component is starved / tiny: first, middle or last
@@ -52,7 +53,7 @@ def run(chk):
                 st.sum_px[zc] *= kf
                 st.sum_pxx[zc] *= kf
         ctx = {"ubm_means": hexlist(ubm.means), "ubm_vars": hexlist(ubm.variances), "T": hexlist(T), "sigma": hexlist(sigma), "tiny_count_component": tiny_comp,
-               "shape": [C, D, t], "stats": iv.dump_stats(stats), "zero_count_component": zero_comp, "component": zc, "centred_item": centred}
+               "update_sigma_switch": bool(i % 2), "shape": [C, D, t], "stats": iv.dump_stats(stats), "zero_count_component": zero_comp, "component": zc, "centred_item": centred}
         # ---- projection: the unique solution of (I + sum_c N_c T_c' S_c^-1 T_c) w = sum_c T_c' S_c^-1 (F_c - N_c m_c)
         st0 = stats[0]
         w = np.asarray(m.project(st0))
@@ -113,6 +114,9 @@ def run(chk):
         if upd and zero_comp:
             # a floor ABOVE the current covariance of the component that receives no count: it must be lifted to the floor as well
             floor = 1.5 * float(np.max(np.asarray(ubm.variances)[zc]))
+        if not upd and i % 4 == 3:
+            # without covariance updating the covariances are not touched at all, also when some of them lie below the (unused) floor
+            floor = float(np.median(np.asarray(ubm.variances)))
         seed = r.randint(0, 10 ** 6)
         K = r.choice([1, 2, 4])
         T0 = iv.t0_of(seed, C, D, t)
@@ -123,6 +127,11 @@ def run(chk):
             mk = iv.fit_machine(ubm, stats, t, k, upd, floor, seed)
             if not (np.all(np.isfinite(mk.T)) and np.all(np.isfinite(mk.sigma))):
                 chk.fail("i-vector training produced non-finite T/sigma after %d iterations" % k, dict(ctx, update_sigma=upd, floor=floor, seed=seed))
+                ok = False
+                break
+            if not upd and not np.array_equal(np.asarray(mk.sigma), np.asarray(ubm.variances, dtype=float)):
+                chk.fail("training with update_sigma=False changed the covariances (floor %g, smallest UBM variance %g)" % (floor, float(np.min(ubm.variances))),
+                         dict(ctx, update_sigma=upd, floor=floor, seed=seed, sigma_after=hexlist(mk.sigma)))
                 ok = False
                 break
             if upd and not np.all(np.asarray(mk.sigma) >= floor):
